@@ -115,6 +115,8 @@ def gen_cases(tier, seed):
             total = rng.choice([255, 255, 254])
             c.update({"fs": "mem", "dest": "file", "src_name": "s" * (total - 41), "dst_name": "d" * (total - 41)})
             cases[-1]["name_len"] = total
+        if rng.random() < 0.08 and "name_len" not in cases[-1]:
+            cases[-1]["cfg"].update({"src_name": "übergröße 文件.bin", "dst_name": "зона 51 ☃.dat"})  # names with non-ASCII characters and blanks
         if rng.random() < 0.15:
             cases[-1]["busy_put"] = rng.randrange(0, 6)
         if rng.random() < 0.25:
